@@ -456,9 +456,80 @@ pub fn wide_matrix_rule(rng: &mut Rng) -> RuleAst {
     RuleAst { idents: vec![("I0".into(), Ident::Seq(seq))], cond: Cond::id("I0"), tp: vec![], tn: vec![] }
 }
 
+/// one field tested several times in one disjunction, with and without casts, by patterns whose
+/// needles read as numbers or booleans (so that the same value satisfies a cast member and leaves
+/// an uncast one missing): where merging searches per field, or caching a column, can mix up
+/// the cast
+pub fn cast_mix_rule(rng: &mut Rng) -> RuleAst {
+    let f = rng.pick(&["a", "num", "b", "n.a"]).to_string();
+    let g = rng.pick(&["c", "d", "flag"]).to_string();
+    let n = 2 + rng.below(4);
+    let str_pats = ["10", "1*", "*0", "*1*", "'10'", "i10", "?^1", "?0$", "5", "true", "i?TRUE", "i*RU*", "1.5", "*.5", "-1", "?^-"];
+    let mut member = |rng: &mut Rng| -> (Key, RVal) {
+        let modi = match rng.weighted(&[40, 30, 14, 10, 6]) {
+            0 => KMod::None,
+            1 => KMod::Str,
+            2 => KMod::Int,
+            3 => KMod::Flt,
+            _ => KMod::Not,
+        };
+        let v = match &modi {
+            KMod::Int => {
+                if rng.chance(50) {
+                    RVal::Int(*rng.pick(&[10, 1, 5, 0]))
+                } else {
+                    RVal::Str(format!("{}{}", rng.pick(&CmpOp::ALL).pat_text(), rng.pick(&[10, 1, 5])))
+                }
+            }
+            KMod::Flt => {
+                if rng.chance(50) {
+                    RVal::Float(*rng.pick(&[10.0, 1.5, 1.0]))
+                } else {
+                    RVal::Str(format!("{}{}", rng.pick(&CmpOp::ALL).pat_text(), rng.pick(&["10.5", "1.5", "1.0"])))
+                }
+            }
+            _ => match rng.below(10) {
+                0 => RVal::Int(*rng.pick(&[10, 1, 5])),
+                1 => RVal::Float(*rng.pick(&[10.0, 1.5])),
+                2 => RVal::Bool(true),
+                3 => RVal::Str(format!(">={}", rng.pick(&[10, 5, 1]))),
+                _ => RVal::Str(rng.pick(&str_pats).to_string()),
+            },
+        };
+        (Key { field: f.clone(), modi }, v)
+    };
+    let mut blocks: Vec<Entries> = vec![];
+    let two_key = rng.chance(50);
+    for i in 0..n {
+        let mut es = vec![member(rng)];
+        if two_key || rng.chance(20) {
+            let e = (Key::plain(&g), RVal::Str(format!("{}*", ["x", "y", "x", "z"][i % 4])));
+            if rng.chance(50) {
+                es.push(e);
+            } else {
+                es.insert(0, e);
+            }
+        }
+        blocks.push(es);
+    }
+    if rng.chance(50) {
+        RuleAst { idents: vec![("I0".into(), Ident::Seq(blocks))], cond: Cond::id("I0"), tp: vec![], tn: vec![] }
+    } else {
+        let idents: Vec<(String, Ident)> = blocks.into_iter().enumerate().map(|(i, es)| (format!("I{}", i), Ident::Map(es))).collect();
+        let mut cond = Cond::id("I0");
+        for i in 1..idents.len() {
+            cond = Cond::or(cond, Cond::id(&format!("I{}", i)));
+        }
+        RuleAst { idents, cond, tp: vec![], tn: vec![] }
+    }
+}
+
 pub fn gen_rule(rng: &mut Rng, cfg: &GenCfg) -> RuleAst {
     if cfg.nested && rng.chance(8) {
         return nested_family_rule(rng, cfg);
+    }
+    if cfg.key_mods && cfg.seq_idents && rng.chance(4) {
+        return cast_mix_rule(rng);
     }
     // now and then a big rule: many identifiers and a long condition, or deeper nesting
     let big = cfg.wide_lists && rng.chance(2);
@@ -609,6 +680,16 @@ pub fn hay_for(rng: &mut Rng, pat: &str, want: bool) -> String {
             9 => format!("{}\n{}", needle, word(rng)),
             _ => format!("{}{}", word(rng), word(rng)),
         };
+        // now and then one inner character is replaced by a line-break-like character (what `.`,
+        // `$`, `\s` and trimming treat specially)
+        let cand = if rng.chance(6) && cand.chars().count() >= 2 {
+            let n = cand.chars().count();
+            let at = rng.below(n);
+            let c = *rng.pick(&['\r', '\n', '\u{85}', '\u{2028}', '\u{b}', '\u{c}', '\t']);
+            cand.chars().enumerate().map(|(i, x)| if i == at { c } else { x }).collect()
+        } else {
+            cand
+        };
         if str_match(&p, &cand) == want {
             return cand;
         }
@@ -669,16 +750,21 @@ pub fn value_for(rng: &mut Rng, leaf: &Leaf) -> DVal {
             RVal::Str(s) => match parse_pattern(s, false) {
                 Ok(p) => match &p.kind {
                     PKind::Num(_, c) => {
+                        let cf = c.clone();
                         let c = match c {
                             crate::refi::NumC::I(i) => *i as i128,
                             crate::refi::NumC::F(f) => *f as i128,
                         };
                         let _ = want;
-                        num_near(rng, c)
+                        if let (crate::refi::NumC::F(f), true) = (cf, rng.chance(35)) {
+                            DVal::Float(*rng.pick(&[f, f64::from_bits(f.to_bits() + 1), f64::from_bits(f.to_bits().wrapping_sub(1)), f + f64::EPSILON / 2.0, -f]))
+                        } else {
+                            num_near(rng, c)
+                        }
                     }
                     _ => {
                         let h = hay_for(rng, s, want);
-                        if leaf.modi == KMod::Str && rng.chance(30) {
+                        if (leaf.modi == KMod::Str && rng.chance(30)) || (h.parse::<i64>().is_ok() && rng.chance(35)) {
                             // a scalar whose text might match
                             match h.parse::<i64>() {
                                 Ok(i) => DVal::int(i),
@@ -708,7 +794,7 @@ pub fn value_for(rng: &mut Rng, leaf: &Leaf) -> DVal {
             }
             RVal::Float(f) => {
                 if rng.chance(50) {
-                    DVal::Float(if want { *f } else { *f + 0.25 })
+                    DVal::Float(if want { *f } else if rng.chance(40) { f64::from_bits(f.to_bits() + 1) } else { *f + 0.25 })
                 } else if leaf.modi == KMod::Str {
                     DVal::Str(f.to_string())
                 } else {
@@ -899,7 +985,9 @@ pub fn gen_doc(rng: &mut Rng, leaves: &[Leaf]) -> DVal {
                 break w;
             }
         };
-        let (a, b) = match rng.below(9) {
+        let (a, b) = match rng.below(11) {
+            9 => (DVal::Float(0.3), DVal::Float(0.30000000000000004)),
+            10 => (DVal::Float(1e-20), DVal::Float(2e-20)),
             0 => (DVal::Str(w.clone()), DVal::Str(w.clone())),
             1 | 2 => (DVal::Str(w.clone()), DVal::Str(flip_case(&w, rng))),
             3 => (DVal::UInt(5), DVal::s("5")),
@@ -947,6 +1035,18 @@ pub fn gen_doc(rng: &mut Rng, leaves: &[Leaf]) -> DVal {
             // now and then the value sits under a look-alike name: the addressed field is absent
             let name = if rng.chance(3) { lookalike(rng, &leaf.field).unwrap_or(leaf.field.clone()) } else { leaf.field.clone() };
             place(t, &name, v, rng);
+        }
+    }
+    // a root field whose NAME is the text of an addressed dotted / indexed key (`n.a`, `arr[0]`):
+    // a path never addresses it
+    for leaf in leaves.iter() {
+        if leaf.containers.is_empty() && (leaf.field.contains('.') || leaf.field.contains('[')) && rng.chance(5) {
+            let v = value_for(rng, leaf);
+            if let DVal::Obj(es) = &mut doc {
+                if !es.iter().any(|(k, _)| *k == leaf.field) {
+                    es.push((leaf.field.clone(), v));
+                }
+            }
         }
     }
     for _ in 0..rng.below(3) {
